@@ -2,3 +2,4 @@ import Model.Scan
 import Model.RunLoop
 import Model.Metadata
 import Model.Assign
+import Model.ErrorPolicy
